@@ -61,17 +61,17 @@ def nesting_depth(fail):
 
 def cursor_mid_char_changed_token(fail):
     """F9: cursor at/inside a token whose text changed and contains non-ASCII"""
-    return fail.get("kind") == "cursor_not_on_char_boundary" and fail.get("token_changed") is True
+    return fail.get("kind") == "cursor_not_on_char_boundary" and fail.get("token_class") == "changed_token"
 
 
 def cursor_u16_truncation(fail):
     """F19"""
-    return fail.get("kind") == "cursor_moved_in_unchanged_token" and fail.get("span", 0) > 65535
+    return fail.get("kind") == "cursor_moved_in_unchanged_token" and fail.get("token_class") == "span_gt_65535"
 
 
 def mlstring_last_terminator_lone_cr(fail):
     """F5"""
-    return fail.get("kind") == "mlstring_not_reindented" and fail.get("last_terminator") == "cr"
+    return fail.get("kind") == "mlstring_not_reindented" and fail.get("token_class") == "cr"
 
 
 def noncanonical_legacy_bytes(fail):
